@@ -11,14 +11,15 @@ open GoBatcher
 
 /-- Everything a complete cycle hands to watchers is a well-formed batch: non-empty, only the watcher's own
 operations, a non-batchable operation alone, never above MaxBatchSize. -/
-theorem batches_well_formed (c : Cfg) (buf : List Op) (free : Option Nat) (order : List Nat) :
-    ∀ p ∈ cycleBatches c buf free order, RaisedOK c p := by
+theorem batches_well_formed (c : Cfg) (buf : List Op) (free : Option Nat) (sweep : List Batch)
+    (hsw : SweepOK c buf free sweep) :
+    ∀ p ∈ cycleBatches c buf free sweep, RaisedOK c p := by
   intro p hp
   have hsh := scan_shape c buf { consumed := 0, openB := [] } free (OpenOK_nil c)
   simp only [cycleBatches, List.mem_append] at hp
   rcases hp with hp | hp
   · exact (hsh.2 p hp).1
-  · exact (hsh.1.1 p (finishOrder_mem hp)).raised
+  · exact (hsh.1.1 p (hsw.mem_iff.mp hp)).raised
 
 /-- "within one cycle a Watcher gets a second batch only after its previous one was full": every batch raised
 before the end-of-cycle sweep is a lone non-batchable operation or has exactly MaxBatchSize operations, and
@@ -31,15 +32,16 @@ theorem second_batch_only_after_full (c : Cfg) (buf : List Op) (free : Option Na
   exact ⟨fun p hp => (hsh.2 p hp).2, hsh.1.2⟩
 
 /-- Operations keep buffer (enqueue) order inside every batch, with or without a slot limit. -/
-theorem order_inside_batches (c : Cfg) (buf : List Op) (free : Option Nat) (order : List Nat) :
-    ∀ p ∈ cycleBatches c buf free order, p.2.Sublist buf := by
+theorem order_inside_batches (c : Cfg) (buf : List Op) (free : Option Nat) (sweep : List Batch)
+    (hsw : SweepOK c buf free sweep) :
+    ∀ p ∈ cycleBatches c buf free sweep, p.2.Sublist buf := by
   intro p hp
   have hex := scan_extends c buf { consumed := 0, openB := [] } free
   simp only [cycleBatches, List.mem_append] at hp
   have : Extends { consumed := 0, openB := [] } buf p := by
     rcases hp with hp | hp
     · exact hex.1 p hp
-    · exact hex.2 p (finishOrder_mem hp)
+    · exact hex.2 p (hsw.mem_iff.mp hp)
   obtain ⟨pre, l, he, hs, hpre⟩ := this
   rcases hpre with hpre | hpre
   · rw [he, hpre]; simpa using hs
@@ -62,9 +64,14 @@ private def o (id w cost : Nat) (b : Bool) : Op := { id := id, obj := id, w := w
 private def cfg2 : Cfg := { ge := true, limited := true, allow := 10, mb := fun w => if w = 1 then 2 else 0 }
 
 -- watcher 1 (limit 2) gets [1,2] at once and [4] at the end; the single 3 goes alone; watcher 2 unlimited
-example : cycleBatches cfg2 [o 1 1 1 true, o 2 1 1 true, o 3 1 1 false, o 4 1 1 true, o 5 2 1 true] none [1, 2]
-    = [(1, [o 1 1 1 true, o 2 1 1 true]), (1, [o 3 1 1 false]), (1, [o 4 1 1 true]), (2, [o 5 2 1 true])] := by
-  decide
+example : (scan cfg2 [o 1 1 1 true, o 2 1 1 true, o 3 1 1 false, o 4 1 1 true, o 5 2 1 true]
+      { consumed := 0, openB := [] } none).raised = [(1, [o 1 1 1 true, o 2 1 1 true]), (1, [o 3 1 1 false])] := by decide
+example : SweepOK cfg2 [o 1 1 1 true, o 2 1 1 true, o 3 1 1 false, o 4 1 1 true, o 5 2 1 true] none
+    [(1, [o 4 1 1 true]), (2, [o 5 2 1 true])] := by
+  unfold SweepOK
+  have : (scan cfg2 [o 1 1 1 true, o 2 1 1 true, o 3 1 1 false, o 4 1 1 true, o 5 2 1 true]
+      { consumed := 0, openB := [] } none).acc.openB = [(2, [o 5 2 1 true]), (1, [o 4 1 1 true])] := by decide
+  rw [this]; exact List.Perm.swap _ _ _
 
 -- with one slot, watcher 2's operation is skipped and stays buffered
 example : cycleBuffer cfg2 [o 1 1 1 true, o 5 2 1 true, o 2 1 1 true] (some 1) = [o 5 2 1 true] := by decide
